@@ -18,8 +18,8 @@ from fsim.reference import RefEKF, rel
 from fsim.worlds import rt_trace
 
 TOL_X, TOL_P = 1e-9, 1e-8
-MAXDT_MENU = [0.1, 0.05, 0.01, 0.25, 0.3, 1.0, 0.07]
-K_MENU = [None, 0.5, 1.0, 3.0, 5.0]
+MAXDT_MENU = [0.1, 0.05, 0.01, 0.25, 0.3, 1.0, 0.07, 1.0 / 30.0]
+K_MENU = [None, 0.5, 1.0, 3.0, 5.0, 4, 7.0 / 3.0]  # incl. an int and a long mantissa
 GUARD_X, GUARD_P, GUARD_COND = 1e4, 1e6, 1e5
 MODE = "direct"
 
@@ -45,7 +45,7 @@ def profile(prop):
     elif prop == "C05":
         p.update(p_update=0.6, p_corrupt=0.1)
     elif prop == "C06":
-        p.update(p_update=0.7, p_corrupt=0.5, p_curated=0.4, k_menu=[None, 0.5, 1.0, 3.0, 5.0, 1.0, 5.0])
+        p.update(p_update=0.7, p_corrupt=0.5, p_curated=0.4, k_menu=[None, 0.5, 1.0, 3.0, 5.0, 1.0, 5.0, 4, 7.0 / 3.0, 1])
     elif prop == "C09":
         p.update(steps=(50, 300), p_curated=0.5, p_singular_start=0.5, p_update=0.35)
     return p
@@ -121,7 +121,10 @@ def generate(rng, prop, tier, mode=None):
             d["containers"] = {k: rng.choice(["set", "list", "tuple", "frozenset"]) for k in d["containers"]}
     else:
         d = models.draw(rng, min_sensors=1 if prop in ("C05", "C06") else 0, identifier_safe=False)
-    cfg = {"cse": rng.random() < 0.4, "innovation_filtering": rng.choice(p["k_menu"]), "max_dt_sec": fx(rng.choice(MAXDT_MENU)), "mode": mode}
+    cfg = {"cse": rng.random() < 0.4, "innovation_filtering": rng.choice(p["k_menu"]), "max_dt_sec": fx(rng.choice(MAXDT_MENU)), "mode": mode,
+           "config_as_dict": rng.random() < 0.3,
+           # the documented option; only on models known to pass the (symbolic) extra validation
+           "extra_validation": d["name"] in ("cv", "direct2", "rect") and rng.random() < 0.5}
     if d["name"] == "direct2" and prop == "C06" and rng.random() < 0.6:
         return _gen_tie(rng, d, cfg)
     max_dt = xf(cfg["max_dt_sec"])
@@ -355,7 +358,9 @@ class Harness:
         self.handed_out = []  # (op index, (state bytes, cov bytes, state obj, cov obj)) of recent results
         self.worst = {"x": 0.0, "P": 0.0, "inn": 0.0, "S": 0.0, "asym": 0.0, "neg": 0.0}
         b = models.build(d)
-        config = python.Config(common_subexpression_elimination=cfg["cse"], innovation_filtering=self.k, max_dt_sec=xf(cfg["max_dt_sec"]))
+        kw = {"common_subexpression_elimination": cfg["cse"], "innovation_filtering": self.k, "max_dt_sec": xf(cfg["max_dt_sec"]), "extra_validation": bool(cfg.get("extra_validation"))}
+        config = kw if cfg.get("config_as_dict") else python.Config(**kw)
+        self._build = (b, config)
         with contextlib.redirect_stdout(io.StringIO()):
             if cfg.get("sibling_builds"):
                 self._sibling(python, b, d, "before")
@@ -364,6 +369,14 @@ class Harness:
                 self._sibling(python, b, d, "after")
                 res.stats["fault:sibling_builds"] += 1
         self.step = 0
+
+    def fresh_filter(self):
+        """another filter object compiled from the same definition and configuration (built once per run, used only by hand)"""
+        if getattr(self, "_fresh", None) is None:
+            b, config = self._build
+            with contextlib.redirect_stdout(io.StringIO()):
+                self._fresh = self.python.compile_ekf(b["model"], b["process_noise"], b["sensor_models"], b["sensor_noises"], b["calibration_map"], config=config)
+        return self._fresh
 
     def _sibling(self, python, b, d, when):
         """build (and keep alive) other filters: same ui.Model object with shifted calibration and noise; and a different
@@ -607,6 +620,9 @@ class Harness:
             res.stats["probe:discarded"] += 1
         if self.k is not None and want in ("discard", "either"):
             # a (rightly, or within the band) discarded reading: nothing to compare; a wrong keep is already reported under C06
+            if not unchanged:
+                # ... but whatever covariance comes back must still be a valid one (C09), e.g. after a partial update
+                self.cov_invariant(i, co.data, P_in, "update", float(np.linalg.norm(np.eye(len(self.S)) - u["K"] @ u["H"], 2)))
             return so, co
         # the reading must be applied (filtering disabled, or NIS clearly below the threshold): if the filter skipped the
         # update anyway, that is also a C05 violation (the update does not return x + K(z-h), P - K H P) and is caught below
@@ -907,12 +923,15 @@ def _execute_runtime(schedule, h: Harness, res: Result):
         # ---- by-hand fold over the same EKF object, replaying the recorded sub-steps: bit-identical
         res.stats["probe:by_hand_replays"] += 1
         hs, hc = held
+        # the by-hand fold runs on a SEPARATE filter object compiled from the same definition that has never been ticked:
+        # hidden state inside the filter (caches, mutated noise) must not make a tick depend on the history of calls
+        hand = h.fresh_filter()
         with contextlib.redirect_stdout(io.StringIO()):
             for c in px.calls:
                 if c[0] == "P":
-                    hs, hc = h.ekf.process_model(c[1], hs, hc, c[5]) if c[5] is not None else h.ekf.process_model(c[1], hs, hc)
+                    hs, hc = hand.process_model(c[1], hs, hc, c[5]) if c[5] is not None else hand.process_model(c[1], hs, hc)
                 else:
-                    hs, hc = h.ekf.sensor_model(hs, hc, sensor_key=c[1], sensor_reading=c[5])
+                    hs, hc = hand.sensor_model(hs, hc, sensor_key=c[1], sensor_reading=c[5])
         if hs.data.tobytes() != ret.state.data.tobytes() or hc.data.tobytes() != ret.covariance.data.tobytes():
             res.add("C11", "by_hand_fold", "C11:py:by_hand_fold", i, f"tick == by-hand fold over the same filter: {hs.data.T.tolist()}", f"{ret.state.data.T.tolist()}")
         if rd:
